@@ -125,7 +125,10 @@ func (wal *BaseWAL) OnStart() error {
 	size, err := wal.group.Head.Size()
 	if err != nil {
 		return err
-	} else if size == 0 {
+	} else if size == 0 && wal.group.ReadGroupInfo().TotalSize == 0 {
+		// Only a completely empty WAL gets the initial marker. An empty head next to rotated
+		// files is just a fresh head: a second marker there would hide the records of the
+		// first height (in the rotated files) from catchup replay.
 		if err := wal.WriteSync(EndHeightMessage{0}); err != nil {
 			return err
 		}
